@@ -6,6 +6,7 @@ import (
 	"os"
 	"path/filepath"
 	"sort"
+	"strconv"
 	"strings"
 	"sync"
 
@@ -149,6 +150,59 @@ func c20Run(c *mon.Ctx) {
 		}
 	}
 	c.Add("errno_entries", int64(len(auparse.AuditErrnoToName)+len(auparse.AuditErrnoToNum)))
+	// every conversion path of the library that maps errno numbers and names uses the whole table:
+	// the parser's exit= enrichment, the rule encoder's "-F exit=-NAME" and the rule printer
+	for num, name := range auparse.AuditErrnoToName {
+		ev.Add(1)
+		line := fmt.Sprintf("type=SYSCALL msg=audit(1700000000.001:%d): arch=c000003e syscall=2 success=no exit=-%d a0=0 items=0 pid=1", 100+num, num)
+		if m, err := auparse.ParseLogLine(line); err != nil {
+			bad("errno-parser", "parsing %q failed: %v", line, err)
+		} else if d, err := m.Data(); err != nil || d["exit"] != name {
+			bad("errno-parser", "exit=-%d is reported as %q (err=%v) by the parser, the errno table names it %s", num, d["exit"], err, name)
+		}
+		// a positive return value is not an errno
+		line = fmt.Sprintf("type=SYSCALL msg=audit(1700000000.001:%d): arch=c000003e syscall=2 success=yes exit=%d a0=0 items=0 pid=1", 100+num, num)
+		if m, err := auparse.ParseLogLine(line); err == nil {
+			if d, err := m.Data(); err != nil || d["exit"] != strconv.Itoa(num) {
+				bad("errno-parser-positive", "exit=%d is reported as %q (err=%v) by the parser", num, d["exit"], err)
+			}
+		}
+	}
+	c.Add("errno_numbers_through_parser", int64(len(auparse.AuditErrnoToName)))
+	for name, num := range auparse.AuditErrnoToNum {
+		for _, neg := range []bool{true, false} {
+			ev.Add(1)
+			rhs, want := name, int32(num)
+			if neg {
+				rhs, want = "-"+name, int32(-num)
+			}
+			line := "-a always,exit -S open -F exit=" + rhs
+			r, err := flags.Parse(line)
+			if err != nil {
+				bad("errno-rule", "%q does not parse: %v", line, err)
+				continue
+			}
+			wire, err := rule.Build(r)
+			if err != nil {
+				bad("errno-rule", "%q does not build: %v", line, err)
+				continue
+			}
+			dec, derr := rulegen.Decode(wire)
+			if derr != nil || dec.FieldCount != 1 || dec.Fields[0] != uapi.Fields["exit"] || int32(dec.Values[0]) != want {
+				bad("errno-rule", "%q encodes as %+v (%v), want exit value %d", line, dec, derr, want)
+				continue
+			}
+			back, err := rule.ToCommandLine(wire, false)
+			wantText := "exit=" + strconv.Itoa(int(want))
+			if neg {
+				wantText = "exit=-" + auparse.AuditErrnoToName[num]
+			}
+			if err != nil || !strings.Contains(back+" ", "-F "+wantText+" ") {
+				bad("errno-rule-print", "%q prints back as %q (%v), want it to contain -F %s", line, back, err, wantText)
+			}
+		}
+	}
+	c.Add("errno_names_through_rule_encoder", int64(2*len(auparse.AuditErrnoToNum)))
 
 	// ---- (3) architectures ----
 	tables := rule.VerifExportTables()
